@@ -3,7 +3,8 @@
    equal the hand models of Base/Prim.v on every byte string; hence every C16 theorem about the
    LEB128 decoders holds of the translated code. *)
 From Coq Require Import ZArith List.
-From PV Require Import Base.Bytes Base.Outcome Base.Prim Spec.PrimSpec Gen.PyFuns Proofs.PrimProofs.
+From Coq Require Import Lia.
+From PV Require Import Base.Bytes Base.Outcome Base.Prim Spec.PrimSpec Gen.PyFuns Proofs.PrimProofs Model.C16Run.
 Import ListNotations.
 Open Scope Z_scope.
 
@@ -83,4 +84,13 @@ Lemma initial_length_encode_size : forall (le : bool) (len : Z) (is64 : bool),
 Proof.
   intros le len is64 _. unfold initial_length_encode, spec_initlen_field_size.
   destruct is64; cbn [Z.eqb]; rewrite ?app_length, ?int_encode_length; reflexivity.
+Qed.
+
+(* the driver's form of the block decoder (length compared before counting) is the model, on every input *)
+Lemma block_decode_run_eq : forall (len : dec Z) bs, block_decode_run len bs = block_decode len bs.
+Proof.
+  intros len bs. unfold block_decode_run, block_decode.
+  destruct (len bs) as [[n r]|] eqn:Hl; [|reflexivity].
+  destruct (Z.of_nat (length r) <? n) eqn:Hc; [|reflexivity].
+  apply Z.ltb_lt in Hc. rewrite take_short; [reflexivity | lia].
 Qed.
